@@ -27,7 +27,8 @@ DT, DX = 512.0, 1024.0
 
 def gen_cases(ctx):
     rng = ctx.rng
-    out = [{"k": "warmdead", "adv": "RK2"}]
+    out = [{"k": "warmdead", "adv": "RK2"}, {"k": "bulkrecords", "n": 3005, "dead": [3000, 3001, 3002, 3003, 3004]},
+           {"k": "bulkrecords", "n": 120000, "dead": [17, 60000]}]
     n = 120 if ctx.quick else 1500
     for _ in range(n):
         jmax, imax = rng.randint(7, 14), rng.randint(7, 16)
@@ -124,6 +125,45 @@ def eval_case(desc, ctx):
         bad = [x for x in diffs if "pid" in x or "records" in x or "files" in x or "crash" in x]
         return {"ints": None, "oracle": ("after a warm start the identifier of a dead particle is in later records: " + "; ".join(bad[:2])) if bad else None,
                 "nontrivial": ("warmdead", desc["adv"]), "kind": "warm-start-dead-stay-dead", "observed": {"pids_uninterrupted": pids}}
+    if desc["k"] == "bulkrecords":
+        # a state of realistic size (thousands of particles) in which a handful dies between two records (as the tracker
+        # marks them: alive = False): none of the dead may be in the next sparse record (oracle only)
+        import romsfiles as rf
+        from ladim.out_netcdf import Output
+        from ladim.state import State
+        from ladim.timekeeper import TimeKeeper
+        from netCDF4 import Dataset
+
+        d = ctx.subdir("c09bulk")
+        for f in d.glob("*"):
+            f.unlink()
+        n, dead = desc["n"], desc["dead"]
+        tk = TimeKeeper(start=rf.iso(0), stop=rf.iso(1800), dt=600)
+        st = State()
+        ivars = {"pid": {"encoding": {"datatype": "i4"}, "attributes": {}}, "X": {"encoding": {"datatype": "f8"}, "attributes": {}}}
+        out = Output({"time": tk, "state": st, "grid": None}, d / "bulk.nc", 600, ivars, None, layout="sparse", numrec=0)
+        st.append(X=np.arange(n, dtype=float), Y=1.0, Z=1.0)
+        problems = []
+        for step in range(3):
+            tk.update()
+            st.compactify()
+            out.update()
+            if step == 0:
+                alive = np.ones(len(st), dtype=bool)
+                alive[np.array(dead)] = False
+                st["alive"] = alive
+        out.close()
+        with Dataset(d / "bulk.nc") as nc:
+            cnt = [int(c) for c in nc.variables["particle_count"][:]]
+            pid = np.asarray(nc.variables["pid"][:])
+        want = [n, n - len(dead), n - len(dead)]
+        if cnt != want:
+            problems.append(f"particle_count {cnt}, living particles at the records {want} ({len(dead)} of {n} died after the first record)")
+        later = set(pid[n:].tolist()) & set(dead)
+        if later:
+            problems.append(f"dead particles {sorted(later)[:5]} are in records written after their death")
+        return {"ints": None, "oracle": "; ".join(problems) or None, "nontrivial": ("bulkrecords", n, len(dead)), "kind": "bulk-records",
+                "observed": {"particle_count": cnt}}
     if desc["k"] == "records":
         import c06
 
